@@ -41,7 +41,7 @@ typedef struct node {
     float w[4]; int hasw;
 } node;
 typedef struct gram {
-    int nrules; node *body[MAXR]; int is_public[MAXR]; char name[MAXR][24];
+    int nrules; node *body[MAXR]; int is_public[MAXR]; char name[MAXR][24]; int case_names;
     int has_void, has_weights, has_backref, nnodes;
 } gram;
 
@@ -153,7 +153,7 @@ static void p_item(const gram *g, const node *n, vh_sb *b, vh_rng *r)
     int t;
     switch (n->type) {
     case N_TOK: vh_sb_printf(b, "%s", alpha[n->sym]); break;
-    case N_REF: if (n->rule < 0) vh_sb_printf(b, "<nosuchrule>"); else vh_sb_printf(b, "<%s>", g->name[n->rule]); break;
+    case N_REF: if (n->rule < 0) { if (g->case_names && g->nrules < 16) vh_sb_printf(b, "<RULE>"); /* all four letters upper case is rule 15: undefined here */ else if (!g->case_names && g->name[0][0] == 'r') vh_sb_printf(b, "<R%s>", g->name[0] + 1); /* differs from a defined name only in case */ else vh_sb_printf(b, "<nosuchrule>"); } else vh_sb_printf(b, "<%s>", g->name[n->rule]); break;
     case N_GROUP: vh_sb_printf(b, "("); p_ws(b, r); p_alt(g, n->kid[0], b, r); p_ws(b, r); vh_sb_printf(b, ")"); break;
     case N_OPT: vh_sb_printf(b, "["); p_ws(b, r); p_alt(g, n->kid[0], b, r); p_ws(b, r); vh_sb_printf(b, "]"); break;
     case N_STAR: p_item(g, n->kid[0], b, r); vh_sb_printf(b, vh_chance(r, 0.3) ? " *" : "*"); break;
@@ -339,6 +339,11 @@ static void run(long i, vh_rng *r)
     memset(&g, 0, sizeof(g));
     g.nrules = vh_chance(r, 0.3) ? 1 : vh_range(r, 2, 6);
     o.allow_backref = vh_chance(r, 0.4); o.allow_undef = vh_chance(r, 0.06); o.allow_void = vh_chance(r, 0.15); o.allow_weights = vh_chance(r, 0.5);
+    if (vh_chance(r, 0.3)) {
+        /* rule names are case-sensitive: names that differ only in letter case are different rules */
+        for (k = 0; k < g.nrules; ++k) { const char *base = "rule"; int q; for (q = 0; q < 4; ++q) g.name[k][q] = (char)(((k >> q) & 1) ? base[q] - 32 : base[q]); if (k >= 16) snprintf(g.name[k] + 4, sizeof(g.name[k]) - 4, "%d", k / 16); else g.name[k][4] = 0; }
+        g.case_names = 1; vh_count("grammars_with_rule_names_differing_only_in_case", 1);
+    } else
     for (k = 0; k < g.nrules; ++k) snprintf(g.name[k], sizeof(g.name[k]), "%s%d", VH_PICK(r, ((const char *[]){ "r", "rule", "X", "cmd_" })), k);
     for (k = 0; k < g.nrules; ++k) g.body[k] = gen_alt(&g, r, vh_range(r, 1, 5), k, &o);
     g.is_public[0] = 1;
